@@ -11,13 +11,22 @@ import (
 var text string
 
 type Item struct {
-	ID    string
-	Files map[string]string // extra files (relative path -> contents)
-	Main  string            // the item's package body, without the package clause
-	Calls [][]string
+	ID     string
+	Files  map[string]string // extra files (relative path -> contents)
+	Main   string            // the item's package body, without the package clause
+	Calls  [][]string
+	Nondet bool // the Go result may depend on the schedule (only inclusion is checked)
 }
 
-func Items() []*Item {
+//go:embed conc.txt
+var concText string
+
+// ConcItems: the concurrent programs (C03).
+func ConcItems() []*Item { return parse(concText) }
+
+func Items() []*Item { return parse(text) }
+
+func parse(text string) []*Item {
 	var items []*Item
 	var cur *Item
 	var dst *string
@@ -39,6 +48,8 @@ func Items() []*Item {
 			flush()
 			curFile = strings.TrimSpace(strings.TrimPrefix(l, "### file:"))
 			dst = new(string)
+		case strings.HasPrefix(l, "### nondet"):
+			cur.Nondet = true
 		case strings.HasPrefix(l, "### main"):
 			flush()
 			dst = &cur.Main
